@@ -679,12 +679,15 @@ class EnsembleServlet(Servlet):
 
     def stop(self):
         assert self._started
+        # End the `_enqueue` thread first, while the members are still reading their
+        # input queues. Otherwise it may block forever passing pending inputs (e.g. of
+        # abandoned requests) to a process member that has already stopped.
+        self._qin.put(None)
+        self._threads[1].join()
         for s in self._servlets:
             s.stop()
         self._members_stopped.set()
-        self._qin.put(None)
-        for t in self._threads:
-            t.join()
+        self._threads[0].join()
         self._reset()
         self._started = False
 
@@ -759,10 +762,12 @@ class SwitchServlet(Servlet):
 
     def stop(self):
         assert self._started
-        for s in self._servlets:
-            s.stop()
+        # End the `_enqueue` thread first, while the members are still reading their
+        # input queues; see `EnsembleServlet.stop`.
         self._qin.put(None)
         self._thread_enqueue.join()
+        for s in self._servlets:
+            s.stop()
         self._reset()
         self._started = False
 
